@@ -178,8 +178,18 @@ def r12_2(prog, scope):
         def is_nul(e):
             return charstore(e) and const_of(e["rhs"]["tree"]) == 0
         n = 0
+        dom = f.dominators()
+        term_blocks = {b2.id: i2 for b2, i2, x in f.calls() if x.get("callee") in TERMINATING_CALLS}
         for b, i, e in sorted(stores, key=lambda x: (x[2].get("line") or 0, x[0].id, x[1])):
             if is_nul(e):
+                continue
+            # `*p = c` (the pointer is not advanced by the store) after a terminating libc call that dominates it: a character of
+            # an already terminated string is replaced in place, nothing is appended
+            lt = strip_casts(e.get("lhs_tree"))
+            advancing = isinstance(lt, list) and lt and lt[0] == "un" and lt[1] == "*" and isinstance(strip_casts(lt[2]), list) \
+                and strip_casts(lt[2])[0] == "un" and strip_casts(lt[2])[1] in ("++post", "++", "--post", "--")
+            if not advancing and any((tb == b.id and ti < i) or (tb != b.id and tb in dom.get(b.id, ())) for tb, ti in term_blocks.items()):
+                r.ok(f, "inplace@%s" % e["line"], "in-place replacement inside a string terminated by a dominating libc call", e["line"], nontrivial=False)
                 continue
             n += 1
             key = "store@%d:%s" % (n, " ".join(e["rhs"]["text"].split())[:24])
